@@ -42,9 +42,24 @@ for d in sorted(glob.glob(os.path.join(V, "seeded", "*"))):
     rows.append(f"| {mid} | {m['breaks_property']} | {ft.get('site', '')} | {ft.get('what', '')} | {', '.join(rules) or 'MISSED'} | {ft.get('when', '')} |")
 tab = "| id | property | site | change | reported by | rule existed before the change was seen? |\n|----|----------|------|--------|-------------|------|\n" + "\n".join(rows)
 
+kf = json.load(open(os.path.join(V, "known_findings.json")))
+drows = []
+def _num(i):
+    m_ = re.match(r"D(\d+)", i or "")
+    return int(m_.group(1)) if m_ else 0
+for e in sorted(kf, key=lambda e: (_num(e.get("id")), e.get("id") or "")):
+    if _num(e.get("id")) < 17:
+        continue
+    disp = f"**fixed** `{e['commit']}`" if e["status"] == "fixed" else "**recorded** (known finding)"
+    demo = (e.get("demonstration") or "").split(" (")[0]
+    what = e["what"].replace("|", "\\|")
+    extra = f" *Not repaired:* {e['why_not_repaired']}" if e.get("why_not_repaired") else ""
+    drows.append(f"| {e['id']} | {e['property']} | {what}{extra} | `{e['key']}` | {disp} | `{demo}` |")
+dtab = "| id | property | what fails | reported as | disposition | demonstration |\n|----|----------|------------|-------------|-------------|---------------|\n" + "\n".join(drows)
+
 p = os.path.join(V, "DESIGN.md")
 s = open(p).read()
-for name, body in (("catalogue", cat), ("seeded", tab)):
+for name, body in (("catalogue", cat), ("seeded", tab), ("defects2", dtab)):
     a, b = f"<!-- BEGIN:{name} -->", f"<!-- END:{name} -->"
     if a in s and b in s:
         s = s[:s.index(a) + len(a)] + "\n" + body + "\n" + s[s.index(b):]
